@@ -36,6 +36,9 @@ Next == UNCHANGED vec
 Val(f) == vec[CHOOSE i \in 1..NF : Features[i] = f]
 \* what the model predicts of the behaviour: does running the task succeed, is it skipped
 Built == [runs |-> Val("condition") # "false", imported |-> Val("import") # "none",
-          tasks |-> IF Val("import") = "none" THEN {"main", "dep"} ELSE {"main", "dep", "imported"}]
+          tasks |-> IF Val("import") = "none" THEN {"main", "dep"} ELSE {"main", "dep", "imported", "both"},
+          \* lists declared partly in the importing, partly in the imported file are joined: the stages of
+          \* pipeline q (one from each file) and the variations of task both (one from each file)
+          joined |-> IF Val("import") = "none" THEN <<>> ELSE <<"q1", "q2">>]
 Emit == PrintT(<<"FMT", ToJson([vec |-> [i \in 1..NF |-> [f |-> Features[i], v |-> vec[i]]], built |-> Built])>>)
 ========================================================================
